@@ -1,20 +1,38 @@
 //! hsv: runtime-monitoring harness for http-serve. One invocation runs one property's
 //! workload in one leg and writes a JSON result file; /verif/check drives it.
 
+mod alloc;
 mod bodymon;
 mod driver;
 mod e1;
+mod e2;
+mod e3;
 mod ent;
 mod gen;
 mod model;
+mod p_cross;
+mod p_dir;
+mod p_file;
+mod p_negot;
+mod p_sched;
 mod p_serve;
+mod p_stream;
 mod util;
 
 use driver::{Ctx, Leg, Prop, Tier};
 
+#[global_allocator]
+static GLOBAL: alloc::Counting = alloc::Counting;
+
 fn props() -> Vec<Box<dyn Prop>> {
     let mut v: Vec<Box<dyn Prop>> = Vec::new();
     p_serve::register(&mut v);
+    p_stream::register(&mut v);
+    p_sched::register(&mut v);
+    p_cross::register(&mut v);
+    p_negot::register(&mut v);
+    p_file::register(&mut v);
+    p_dir::register(&mut v);
     v
 }
 
@@ -117,6 +135,7 @@ fn main() {
         }
     });
     let result = driver::run(prop.as_ref(), &ctx, replay_case.as_ref());
+    util::run_cleanups();
     let text = serde_json::to_string_pretty(&result).unwrap();
     match out {
         Some(p) => std::fs::write(p, text).expect("write result"),
